@@ -2,6 +2,7 @@ package hs
 
 import (
 	"fmt"
+	"os"
 	"sort"
 
 	"pgregory.net/rapid"
@@ -199,4 +200,11 @@ func interleave[T any](t *rapid.T, lists [][]T) []T {
 
 func chance(t *rapid.T, pct int, label string) bool {
 	return rapid.IntRange(0, 99).Draw(t, label) < pct
+}
+
+// debugf prints step traces when HS_DEBUG is set (manual triage only; never affects a verdict).
+func debugf(format string, args ...any) {
+	if os.Getenv("HS_DEBUG") != "" {
+		fmt.Fprintf(os.Stderr, format+"\n", args...)
+	}
 }
